@@ -9,7 +9,7 @@ namespace OP2Utility::Stream
 
 	void MemoryWriter::WriteImplementation(const void* buffer, std::size_t size)
 	{
-		if (offset + size > streamSize) {
+		if (size > streamSize - offset) {
 			throw std::runtime_error("Size of bytes to write exceeds remaining size of buffer.");
 		}
 
@@ -40,11 +40,20 @@ namespace OP2Utility::Stream
 
 	void MemoryWriter::SeekForward(uint64_t offset)
 	{
+		// Compare against the space remaining so a huge offset cannot wrap around to an in-range position
+		if (offset > streamSize - this->offset) {
+			throw std::runtime_error("Change in offset places write position outside bounds of buffer.");
+		}
+
 		Seek(this->offset + offset);
 	}
 
 	void MemoryWriter::SeekBackward(uint64_t offset)
 	{
+		if (offset > this->offset) {
+			throw std::runtime_error("Change in offset places write position outside bounds of buffer.");
+		}
+
 		Seek(this->offset - offset);
 	}
 }
